@@ -2,6 +2,7 @@ import Generated.SSA_Num
 import Lemmas.GenTie
 import Lemmas.GenTieCompose
 import Lemmas.GenTieSpec
+import Lemmas.GenTieShift
 import Props.C01
 /-! # C01, second tie — the definitions regenerated from the Go source are the verified model
 
@@ -161,9 +162,13 @@ open U128 (W)
 @[gen_eq] theorem Uint128_Xor64_eq : Gen.Uint128_Xor64 = U128.xorW := by
   funext u n; gen_tie [U128.xorW]
 @[gen_eq] theorem Uint128_LeftShift_eq (u : U128) (n : W) : Gen.Uint128_LeftShift u n = U128.leftShift u n.toNat := by
-  gen_tie [U128.leftShift, U128.shl_eq]
+  first
+  | gen_tie [U128.leftShift, U128.shl_eq]
+  | shift_tie [Gen.Uint128_LeftShift, U128.leftShift] on n
 @[gen_eq] theorem Uint128_RightShift_eq (u : U128) (n : W) : Gen.Uint128_RightShift u n = U128.rightShift u n.toNat := by
-  gen_tie [U128.rightShift, U128.shr_eq]
+  first
+  | gen_tie [U128.rightShift, U128.shr_eq]
+  | shift_tie [Gen.Uint128_RightShift, U128.rightShift] on n
 
 /-! ## Int128: constructors, predicates, conversions -/
 
@@ -258,6 +263,7 @@ open U128 (W)
   first
   | gen_tie [I128.cmp, I128.cmpHL] [U128.signBit]
   | (tie_spec [Gen.Int128_Cmp])
+  | (rw [C01.icmp_spec]; apply GenTieSpec.cmp_of_spec <;> intro h <;> gen_spec)
 @[gen_eq] theorem Int128_Cmp64_eq (i : I128) (n : W) : (Gen.Int128_Cmp64 i n).toInt = I128.cmpW i n := by
   first
   | (tie_spec [Gen.Int128_Cmp64])
